@@ -5,8 +5,11 @@ import (
 	"encoding/json"
 	"errors"
 	"fmt"
+	"go/ast"
+	"go/importer"
 	"go/parser"
 	"go/token"
+	"go/types"
 	"os"
 	"os/exec"
 	"path/filepath"
@@ -43,7 +46,7 @@ func init() {
 			"strace sees every system call of the child and its threads (-f); only calls between the two marker syscalls are attributed to Save",
 			"package names for the exact resolver are read from the package clauses under GOROOT/src, independently of dst",
 		},
-		Required: map[string]int{"scenarios": 4},
+		Required: map[string]int{"scenarios": 5},
 	})
 }
 
@@ -89,6 +92,34 @@ func c20Build(spec *C20Spec, read func(string) []byte) (*decorator.Package, erro
 	fset := token.NewFileSet()
 	d := decorator.NewDecoratorWithImports(fset, spec.PkgPath, goast.WithResolver(simple.New(spec.Names)))
 	pkg := &decorator.Package{Package: &packages.Package{PkgPath: spec.PkgPath}, Decorator: d, Dir: filepath.Dir(spec.Files[0])}
+	if spec.Mode == "typed" {
+		// as Load does: parse, type-check, NewDecoratorFromPackage, DecorateFile per file
+		var afs []*ast.File
+		for _, fn := range spec.Files {
+			af, err := parser.ParseFile(fset, fn, read(fn), parser.ParseComments)
+			if err != nil {
+				return nil, err
+			}
+			afs = append(afs, af)
+		}
+		info := &types.Info{Types: map[ast.Expr]types.TypeAndValue{}, Defs: map[*ast.Ident]types.Object{}, Uses: map[*ast.Ident]types.Object{}, Selections: map[*ast.SelectorExpr]*types.Selection{}, Implicits: map[ast.Node]types.Object{}, Scopes: map[ast.Node]*types.Scope{}}
+		conf := types.Config{Importer: importer.ForCompiler(fset, "source", nil), Error: func(error) {}}
+		tp, err := conf.Check(spec.PkgPath, fset, afs, info)
+		if err != nil {
+			return nil, err
+		}
+		lp := &packages.Package{ID: spec.PkgPath, Name: tp.Name(), PkgPath: spec.PkgPath, Fset: fset, Types: tp, TypesInfo: info}
+		dt := decorator.NewDecoratorFromPackage(lp)
+		tpkg := &decorator.Package{Package: lp, Decorator: dt, Dir: filepath.Dir(spec.Files[0])}
+		for _, af := range afs {
+			f, err := dt.DecorateFile(af)
+			if err != nil {
+				return nil, err
+			}
+			tpkg.Syntax = append(tpkg.Syntax, f)
+		}
+		return tpkg, nil
+	}
 	if spec.Mode == "parsedir" {
 		// Decorator.ParseDir decorates the whole directory as one *ast.Package without a current
 		// file, so import resolution is not available there; directories are decorated without it
@@ -281,7 +312,11 @@ func c20One(c *fw.Ctx, id string, i int, pool []string, exe string) {
 	root := filepath.Join(c.WorkDir, fmt.Sprintf("c20-%d", i))
 	os.MkdirAll(root, 0755)
 	defer os.RemoveAll(root)
-	scenario := []string{"unedited", "edited", "fault", "parsedir-unedited"}[i%4]
+	scenario := []string{"unedited", "edited", "fault", "parsedir-unedited", "typed-unedited"}[i%5]
+	if scenario == "typed-unedited" {
+		c20Typed(c, id, i, root, exe)
+		return
+	}
 	c.Observe("scenarios", scenario)
 	nfiles := 1 + r.Intn(10)
 	ndirs := 1 + r.Intn(3)
@@ -497,6 +532,110 @@ func c20One(c *fw.Ctx, id string, i int, pool []string, exe string) {
 	if i < 4 {
 		c.Sample(map[string]interface{}{"case": id, "scenario": scenario, "files": len(spec.Files), "dirs": ndirs, "fail_index": failIdx, "writes_seen_by_strace": writes})
 	}
+}
+
+// c20Typed: a small type-checked package (decorated as Load decorates: NewDecoratorFromPackage with
+// the go/types resolver, which resolves unqualified identifiers too) whose files refer to each
+// other's package-level identifiers; the package's own path is plain, under a vendor directory, or
+// under GOROOT's vendor directory. Saved unedited: every file is written once and keeps its bytes.
+func c20Typed(c *fw.Ctx, id string, i int, root, exe string) {
+	c.Observe("scenarios", "typed-unedited")
+	pkgPath := []string{"example.com/self", "root/vendor/foo/bar", "vendor/golang.org/x/bar", "example.com/govendor/bar"}[(i/5)%4]
+	c.Observe("typed_package_paths", pkgPath)
+	dir := filepath.Join(root, "d0")
+	os.MkdirAll(dir, 0755)
+	srcs := []string{
+		"package bar\n\n// Helper does things.\nfunc Helper() int { return Exported + 1 }\n\n// Exported is exported.\nvar Exported = 2\n",
+		"package bar\n\nimport (\n\t\"sort\"\n\t\"strings\"\n)\n\ntype T struct{ N int }\n\nfunc (t T) Use() int { return Helper() + t.N + Exported }\n\nfunc Up(s []string) string {\n\tsort.Strings(s)\n\treturn strings.ToUpper(strings.Join(s, Sep))\n}\n",
+		"package bar\n\nconst Sep = \",\"\n\nvar _ = T{N: Helper()}\n\nvar list = []interface{}{\n\tHelper, // a function of this package\n\tExported,\n\tT{}.Use,\n}\n",
+	}
+	spec := &C20Spec{PkgPath: pkgPath, Mode: "typed", Names: map[string]string{"sort": "sort", "strings": "strings", "foo/bar": "bar", "golang.org/x/bar": "bar", pkgPath: "bar"}}
+	orig := map[string][]byte{}
+	n := 2 + (i/20)%2
+	for k := 0; k < n; k++ {
+		fn := filepath.Join(dir, fmt.Sprintf("t%d.go", k))
+		src := []byte(srcs[k])
+		if !corpus.Canonical(src) {
+			c.Count("inconclusive_typed_source_not_canonical", 1)
+			return
+		}
+		os.WriteFile(fn, src, 0644)
+		orig[fn] = src
+		spec.Files = append(spec.Files, fn)
+		spec.Edit = append(spec.Edit, false)
+	}
+	if n == 2 {
+		// t1.go refers to Sep of t2.go: declare it in the first file instead
+		b := append(append([]byte{}, orig[spec.Files[0]]...), "\nconst Sep = \",\"\n"...)
+		orig[spec.Files[0]] = b
+		os.WriteFile(spec.Files[0], b, 0644)
+	}
+	os.WriteFile(filepath.Join(dir, "bystander.txt"), []byte("do not touch"), 0600)
+	specPath := filepath.Join(root, "spec.json")
+	sb, _ := json.Marshal(spec)
+	os.WriteFile(specPath, sb, 0644)
+	before := snapshotTree(root)
+	logPath := filepath.Join(c.WorkDir, fmt.Sprintf("strace-%d.log", i))
+	defer os.Remove(logPath)
+	cmd := exec.Command("strace", "-f", "-o", logPath, "-e", "trace=open,openat,creat,rename,renameat,renameat2,unlink,unlinkat,mkdir,mkdirat,link,linkat,symlink,symlinkat,truncate,chmod,fchmodat,rmdir,access,faccessat,faccessat2", exe, "c20child", specPath)
+	var stdout, stderr bytes.Buffer
+	cmd.Stdout, cmd.Stderr = &stdout, &stderr
+	if err := cmd.Run(); err != nil {
+		c.Violate("child-died", "child-died", id+": "+err.Error()+"\n"+stderr.String(), "")
+		return
+	}
+	var res C20Result
+	if json.Unmarshal(bytes.TrimSpace(stdout.Bytes()), &res) != nil {
+		c.Count("inconclusive_child_output", 1)
+		return
+	}
+	if res.Panic != "" {
+		c.Violate("save-panic", "save-panic", id+": "+res.Panic, "")
+		return
+	}
+	if strings.HasPrefix(res.Err, "build:") {
+		c.Count("inconclusive_child_build_failed", 1)
+		return
+	}
+	if res.Err != "" {
+		c.Violate("save-error", "save-error", id+": "+res.Err, "")
+		return
+	}
+	slog, _ := os.ReadFile(logPath)
+	writes, ok := parseStrace(string(slog))
+	if !ok {
+		c.Count("inconclusive_markers_not_seen", 1)
+		return
+	}
+	c.Count("syscalls_attributed_to_save", int64(len(writes)))
+	after := snapshotTree(root)
+	if strings.Join(writes, "\n") != strings.Join(spec.Files, "\n") {
+		c.Violate("writes-differ", "writes-differ:typed-unedited", fmt.Sprintf("%s: paths modified during Save:\n  %s\nexpected (Syntax order):\n  %s", id, strings.Join(writes, "\n  "), strings.Join(spec.Files, "\n  ")), "")
+	}
+	for p, a := range after {
+		b, existed := before[p]
+		if !existed {
+			c.Violate("file-created", "file-created", id+": "+p+" appeared during Save", "")
+			continue
+		}
+		if a.mode != b.mode {
+			c.Violate("mode-changed", "mode-changed", fmt.Sprintf("%s: %s mode %v -> %v", id, p, b.mode, a.mode), "")
+		}
+		if !bytes.Equal(a.data, b.data) {
+			c.Violate("unedited-file-changed", "unedited-file-changed:typed:"+map[bool]string{true: "vendored-own-path", false: "plain-own-path"}[strings.Contains(pkgPath, "vendor/")], fmt.Sprintf("%s: package %s: %s was not edited but its bytes changed:\n%s", id, pkgPath, p, a.data), string(b.data))
+		}
+	}
+	for p := range before {
+		if _, ok := after[p]; !ok {
+			c.Violate("file-removed", "file-removed", id+": "+p+" disappeared during Save", "")
+		}
+	}
+	if strings.Join(res.Order, "\n") != strings.Join(spec.Files, "\n") {
+		c.Violate("filenames", "filenames", fmt.Sprintf("%s: Decorator.Filenames in Syntax order %v, sources %v", id, res.Order, spec.Files), "")
+	}
+	c.Count("unedited_files_identical_checked", int64(len(spec.Files)))
+	c.Count("files_saved", int64(len(spec.Files)))
+	c.Nontrivial("typed-unedited", pkgPath, fmt.Sprint(n))
 }
 
 var c20NoImport []string
